@@ -560,6 +560,23 @@ pub(crate) enum LinkRelay<O> {
     },
 }
 
+impl<O> LinkRelay<O> {
+    /// The session stopped: no settlement can arrive any more, so everyone waiting on the
+    /// outcome of an unsettled delivery is woken (the waiter then reads the session stop
+    /// reason). The unsettled entries themselves are kept for link resumption.
+    pub(crate) fn fail_pending_settlements(&mut self) {
+        if let LinkRelay::Sender { unsettled, .. } = self {
+            let mut guard = unsettled.write();
+            if let Some(map) = guard.as_mut() {
+                for (_, msg) in map.iter_mut() {
+                    let (dead, _) = oneshot::channel();
+                    msg.sender = dead;
+                }
+            }
+        }
+    }
+}
+
 impl LinkRelay<()> {
     pub fn new_sender(
         tx: mpsc::Sender<LinkIncomingItem>,
